@@ -819,6 +819,37 @@ Proof.
   split; [exact A1|]. split; [exact A2|]. exact (A3 k R c G).
 Qed.
 
+(** the admin delete in two steps - close the connection that is registered now, later unregister - with the
+    second step removing only the connection the first one looked up: a connection that took the id in between
+    keeps its registration *)
+Definition admin_begin (cs : cstate) : cstate :=
+  match reg cs with
+  | Some j => upd_conn j mark_dead (set_dbv None cs)
+  | None => set_dbv None cs
+  end.
+
+Definition admin_end (looked_up : option Z) (cs : cstate) : cstate :=
+  match looked_up, reg cs with
+  | Some a, Some b => if a =? b then set_reg None cs else cs
+  | _, _ => cs
+  end.
+
+Lemma admin_two_step q cs : cstep q cs CAdminDelete = admin_end (reg cs) (admin_begin cs).
+Proof.
+  cbn [cstep]. unfold delete_session, admin_begin, admin_end. cbn [reg set_dbv].
+  destruct (reg cs) as [j|] eqn:R.
+  - destruct (upd_conn_fields j mark_dead (set_dbv None cs)) as [F1 _]. rewrite F1. cbn [reg set_dbv].
+    rewrite R, Z.eqb_refl. reflexivity.
+  - cbn [reg set_dbv]. reflexivity.
+Qed.
+
+Theorem admin_unregister_guarded cs k looked_up :
+  reg cs = Some k -> looked_up <> Some k -> admin_end looked_up cs = cs.
+Proof.
+  intros R N. unfold admin_end. rewrite R. destruct looked_up as [a|]; [|reflexivity].
+  destruct (a =? k) eqn:E; [|reflexivity]. apply Z.eqb_eq in E. subst. contradiction.
+Qed.
+
 (** a registration ends only by the connection's own teardown, a later CONNECT for the id, or an admin delete *)
 Theorem registration_survives es k e :
   let cs := crun ideal cstate0 es in
